@@ -579,3 +579,31 @@ Fixpoint ulower_go (tab : list (bytes * bytes)) (l : bytes) (skip : nat) : bytes
     end
   end.
 Definition ulower_tab (tab : list (bytes * bytes)) (l : bytes) : bytes := ulower_go tab l 0.
+
+(* What strings.ToLower does to U+023A (C8 BA -> E2 B1 A5, one byte longer); ASCII is
+   folded. Used only to show that the length hypothesis of the crash-freedom theorem
+   is necessary: with this lowering the model reproduces the panic of the unfixed code. *)
+Fixpoint growing_lower (l : bytes) : bytes :=
+  match l with
+  | [] => []
+  | b :: r =>
+    match r with
+    | c :: r' => if (b =? 200) && (c =? 186) then 226 :: 177 :: 165 :: growing_lower r'
+                 else lower_byte b :: growing_lower r
+    | [] => [lower_byte b]
+    end
+  end.
+
+(* A parse result with the text-derived display strings (SelectColumn.Raw, the two
+   sides of the join condition) ASCII-lower-cased: what "the parsed query, apart
+   from raw display strings" means in the keyword-case theorem. *)
+Definition norm_jon (j : join_on) : join_on :=
+  match j with JExpr l r => JExpr (ascii_lower l) (ascii_lower r) | x => x end.
+Definition norm_sel (s : select_q) : select_q :=
+  mkSel (s_topic s) (s_alias s) (s_jtype s) (s_jtopic s) (s_jalias s) (norm_jon (s_jon s))
+        (map ascii_lower (s_cols s)) (s_group s) (s_order s) (s_desc s)
+        (s_part s) (s_omin s) (s_omax s) (s_scan_full s).
+Definition norm_q (q : query) : query :=
+  match q with QSelect s => QSelect (norm_sel s) | QExplain s => QExplain (norm_sel s) | x => x end.
+Definition norm_res (r : res query) : res query :=
+  match r with Ok q => Ok (norm_q q) | x => x end.
